@@ -1,5 +1,5 @@
 """Texts for MANIFEST.json (kept beside the registry)."""
-HOOK_COMMITS = ["eeb5880"]
+HOOK_COMMITS = ["eeb5880", "54c0dd5"]
 
 _NOTE = ("Trusted: Lean kernel; Spec/* transcription of the FIRST documents; F64.lean as a description of amd64 Go float64 "
          "(validated bit-exactly on the whole domain each run, not verified); harness/driver/check.py. The model is hand-written: "
